@@ -56,6 +56,8 @@ var wants = []want{
 	{"pkg/blobserver/diskpacked/reindex.go", "selcalls:Stat", "walkPack", "dp_walk_checks_file_size"},
 	// diskpacked: does RemoveBlobs commit the index deletion before it touches the pack (first CommitBatch before first delete call)
 	{"pkg/blobserver/diskpacked/diskpacked.go", "callorder:CommitBatch<delete", "RemoveBlobs", "dp_remove_commits_index_first"},
+	// blobpacked: does RemoveBlobs hand the loose store every blob it was given (and not only those without a meta row)?
+	{"pkg/blobserver/blobpacked/blobpacked.go", "removeall:small", "RemoveBlobs", "bp_remove_loose_of_all"},
 	// every handler type registered anywhere under pkg/ (first argument of blobserver.RegisterHandlerConstructor)
 	{"pkg", "registered:RegisterHandlerConstructor", "", "registered_handler_types"},
 }
@@ -398,6 +400,28 @@ func main() {
 			ast.Inspect(fd.Body, func(n ast.Node) bool {
 				if se, ok := n.(*ast.SelectorExpr); ok && isIdent(se.X, "strconv") && se.Sel.Name == "ParseInt" {
 					found = true
+				}
+				return true
+			})
+			fmt.Fprintf(&b, "Definition %s : bool := %v.\n", w.coqName, found)
+		case "removeall:small":
+			// true iff the function calls <x>.small.RemoveBlobs(ctx, <its own second parameter>)
+			fd, ok := fi.funcs[w.goName]
+			if !ok {
+				fail(fmt.Errorf("func not found"))
+			}
+			param := ""
+			if ps := fd.Type.Params.List; len(ps) >= 2 && len(ps[1].Names) > 0 {
+				param = ps[1].Names[0].Name
+			}
+			found := false
+			ast.Inspect(fd.Body, func(n ast.Node) bool {
+				if ce, ok := n.(*ast.CallExpr); ok && len(ce.Args) == 2 {
+					if se, ok := ce.Fun.(*ast.SelectorExpr); ok && se.Sel.Name == "RemoveBlobs" {
+						if inner, ok := se.X.(*ast.SelectorExpr); ok && inner.Sel.Name == "small" && isIdent(ce.Args[1], param) {
+							found = true
+						}
+					}
 				}
 				return true
 			})
